@@ -197,16 +197,18 @@ def r13_3(ctx, rc):
                      'change must not matter)' % bad, H.file, key=key)
     else:
         rc.ok({'primitives': sorted(prims)}, key=key)
-    sg = ctx.E.super(H, lambda g: False)
+    sg = ctx.E.super(H, lambda g: g.cls == ctx.R.executor and
+                     g.name.startswith('_') and g.qualname != H.qualname)
     reads = [x for x in sg.nodes if x.kind == 'ret' and
-             callee_name(x) == 'method:file.read']
+             callee_name(x) in ('method:file.read', 'method:?.read')]
     if not reads:
         raise AnalysisError('HASH reads no bytes')
-    upd = lambda x: x.kind == 'ret' and callee_name(x) == 'method:hash.update'
+    upd = lambda x: x.kind == 'ret' and callee_name(x) in (
+        'method:hash.update', 'method:?.update')
     for r in reads:
         w = Q.first_unguarded(
             sg, [r.id], upd, lambda x: x.kind == 'leaf' and
-            callee_name(x) == 'method:file.read')
+            callee_name(x) in ('method:file.read', 'method:?.read'))
         key = 'every chunk read is hashed before the next read'
         if w:
             rc.violation('hash-chunk-dropped | ' + H.qualname,
